@@ -232,3 +232,72 @@ Fixpoint run (s : st) (evs : list ev) : st * list obs :=
   end.
 
 Definition init (own0 : Z) : st := {| cache := []; own := own0 |}.
+
+(* ---------- the request message as an object: what the handler does with it ----------
+   handleReq hands the received message itself (a *pool.Message) to the application handler, which owns it while
+   it runs: it may re-label it (a forwarding proxy sets the message ID, type and token of the upstream exchange
+   with r.SetMessageID / r.SetType / r.SetToken; passing it to another connection's Do overwrites its message ID),
+   or take it over (r.Hijack()) and give it back to the pool (ReleaseMessage -> pool.Message.Reset: type Unset
+   = -1, message ID -1) before it returns.  Of the request, handleReq needs the type and the message ID after the
+   handler has returned: for processResponse (the acknowledgement's ID; whether and under which key the reply is
+   stored).  [rlabel] is that part of the message object; [readpt] says where handleReq reads it. *)
+Record rlabel := { r_typ : Z; r_mid : Z }.
+
+Definition UNSET : Z := -1.         (* message.Unset *)
+
+Inductive ruse :=
+| UKeep                             (* the handler leaves the request as it is *)
+| URelabel (typ' mid' : Z)          (* r.SetType(typ'); r.SetMessageID(mid') (and SetToken: never read again) *)
+| URelease.                         (* r.Hijack(); ...; cc.ReleaseMessage(r), by the handler or a worker it waits for *)
+
+Definition use_req (u : ruse) (l : rlabel) : rlabel :=
+  match u with
+  | UKeep => l
+  | URelabel t m => {| r_typ := t; r_mid := m |}
+  | URelease => {| r_typ := UNSET; r_mid := -1 |}
+  end.
+
+(* RBefore: the code -- [reqType := req.Type(); reqMessageID := req.MessageID()] are taken before cc.handle(w, req).
+   RAfter: the variant that reads req.Type() / req.MessageID() when it calls processResponse, i.e. after the
+   handler returned (Dedup/Proofs.v: refuted). *)
+Inductive readpt := RBefore | RAfter.
+
+Definition label_read (rp : readpt) (u : ruse) (l : rlabel) : rlabel :=
+  match rp with RBefore => l | RAfter => use_req u l end.
+
+(* one received copy whose handler uses the request as [u]; the response is prepared (token of the request) before
+   the handler runs and the No-Response value is parsed when the response writer is created, so neither depends
+   on [u]; the lock, the own-ID check and the cache lookup happen before the handler *)
+Definition step_u (rp : readpt) (s : st) (u : ruse) (typ mid : Z) (tok : list Z) (code : Z) (reqopts : opts_t) (b : behaviour)
+  : st * obs :=
+  let own1 := req_check typ mid (own s) in
+  match req_lookup typ mid (cache s) with
+  | Some en =>
+      let r' := retarget typ mid (e_reply en) in
+      ({| cache := cache s; own := own_after_write (Some r') own1 |}, obs_of_reply false (Some r'))
+  | None =>
+      let k := label_read rp u {| r_typ := typ; r_mid := mid |} in
+      let h := req_handle (r_typ k) (r_mid k) tok reqopts b own1 in
+      ({| cache := req_store (r_mid k) h (cache s); own := own_after_write (hd_reply h) (hd_own h) |},
+       obs_of_reply true (hd_reply h))
+  end.
+
+(* histories in which every request says what its handler does with the request message *)
+Inductive uev :=
+| UReq (u : ruse) (typ mid : Z) (tok : list Z) (code : Z) (reqopts : opts_t) (b : behaviour)
+| UEv (e : ev).
+
+Definition erase_use (e : uev) : ev :=
+  match e with UReq _ typ mid tok code ro b => Req typ mid tok code ro b | UEv e => e end.
+
+Definition ustep (rp : readpt) (s : st) (e : uev) : st * obs :=
+  match e with
+  | UReq u typ mid tok code ro b => step_u rp s u typ mid tok code ro b
+  | UEv e => step s e
+  end.
+
+Fixpoint urun (rp : readpt) (s : st) (evs : list uev) : st * list obs :=
+  match evs with
+  | [] => (s, [])
+  | e :: r => let '(s1, o) := ustep rp s e in let '(s2, os) := urun rp s1 r in (s2, o :: os)
+  end.
